@@ -49,6 +49,16 @@ def build():
     w.contract(QUOTE, 'escape_string', view='empty', params={'s': 'str'}, returns='str', requires=['s == ""'], ensures=['result == ""'])
     w.contract(PGC, 'quote_literal', view='empty', params={'string': 'str'}, returns='str', requires=['string == ""'], ensures=['result == "\'\'"'])
     build2(w)
+    # SQL type names: quote_type passes the name proper (after peeling off `[]`, `%ROWTYPE` and a `(...)` modifier) through quote_ident, whatever characters it contains
+    # (QI = quote_ident's result, an uninterpreted function of the identifier; its own quoting decision is examined by the bounded oracle)
+    w.ufunc('QI', ['str'], 'str')
+    w.exec_defs = dict(getattr(w, 'exec_defs', {})); w.exec_defs['QI'] = "__import__('edb.pgsql.common', fromlist=['x']).quote_ident"      # (run-time contract checking: the real function)
+    XQ = {'quote_ident': dict(params={'ident': 'str'}, returns='str', returns_expr='QI(ident)')}
+    NOMOD = ['not str_contains(type_, "(")', 'not str_suffixof("%ROWTYPE", type_)']
+    w.contract(PGC, 'quote_type', view='plain', params={'type_': 'str'}, returns='str', requires=NOMOD + ['not str_suffixof("[]", type_)'],
+               ensures=['result == QI(type_)'], hints={'ext_funcs': XQ})
+    w.contract(PGC, 'quote_type', view='array', params={'type_': 'str'}, returns='str', requires=['not str_suffixof("%ROWTYPE", type_)', 'str_suffixof("[]", type_)', 'not str_contains(str_sub(type_, 0, len(type_) - 2), "(")'],
+               ensures=['result == QI(str_sub(type_, 0, len(type_) - 2)) + "[]"'], hints={'ext_funcs': XQ})
     return w
 
 def build2(w):
